@@ -88,6 +88,9 @@ POOL = [
     # as a repeat count or size argument of library functions it would
     # only measure resource exhaustion)
     ("10^400", lambda s: V.ValueInt(10 ** 400)),
+    # a pattern text with an optional group and an empty alternative (host
+    # regex functions answer None for groups that took no part)
+    ("'(x)?b|'", lambda s: V.ValueString("(x)?b|")),
 ]
 FORMS_ONLY = {"10^400"}
 def _selflist():
